@@ -551,8 +551,14 @@ def hif_docs(draw, tier):
     ekind = draw(st.sampled_from(["ints", "strs"]))
     eids = draw(st.lists(st.sampled_from(EDGE_IDS[ekind]), max_size=5, unique=True))
     incidences, edge_recs, in_some = [], [], set()
+    earlier = []
     for eid in eids:
         members = draw(st.lists(st.sampled_from(nodes), max_size=4, unique=True))
+        if earlier and draw(st.integers(0, 3)) == 0:
+            # a second name for an incidence set that is already described (in another order)
+            members = list(reversed(draw(st.sampled_from(earlier))))
+        if members:
+            earlier.append(members)
         for m in members:
             in_some.add(m)
             incidences.append(_attrs(draw, {"edge": eid, "node": m}))
@@ -638,9 +644,15 @@ def check_hif(case, ctx):
             lambda: "HIF reader: get_edges() = %r, the incidence sets of the file are %r (node ids "
                     "%r)" % (dict(got), sorted(by_set), name2id), key="hif-edges")
     for e, eids in by_set.items():
-        ok = []
-        for eid in eids:
-            ok += [edge_rec[eid]] if eid in edge_rec else [{}, {"edge": eid}]
+        # "one hyperedge per described incidence set together with the ... hyperedge ...
+        # attribute records of the file": when one of the names of the set has a record, the
+        # hyperedge carries a record of the file (either one, if two names have one)
+        ok = [edge_rec[eid] for eid in eids if eid in edge_rec]
+        if not ok:
+            for eid in eids:
+                ok += [{}, {"edge": eid}]
+        elif len(eids) > 1 and len(ok) < len(eids):
+            ctx.label("two_edge_ids_one_incidence_set_one_record")
         md = h.get_edge_metadata(e)
         require(jnorm(md) in ok,
                 lambda: "HIF reader: record of hyperedge %r (edge ids %r) is %r, the file has %r"
